@@ -42,7 +42,8 @@ def names_of(G):
         for a in r['alts']:
             if a.get('alias'):
                 aliases.add(a['alias'])
-    terms = {t['name'] for t in G.get('terms', []) if not t['name'].startswith('_') and t['name'] not in G.get('ignore', [])}
+    # _TERMINALS too: they are filtered in ordinary rules (a pure callback is invisible there) but kept under ! / keep_all
+    terms = {t['name'] for t in G.get('terms', []) if t['name'] not in G.get('ignore', [])}
     return rules, aliases, templates, terms
 
 
@@ -95,7 +96,8 @@ def make_T(base_name, spec, log):
                 if not isinstance(tree, Tree):
                     log.append(('TREE-ARG-IS-NOT-A-TREE', name, type(tree).__name__))
                     return body(kind, name, tree if isinstance(tree, list) else [tree])
-                return body(kind, name, tree.children)
+                # the tag comes from the tree the callback is handed (its .data must be the rule / alias name)
+                return body(kind, 'data=' + str(tree.data), tree.children)
             f = v_args(tree=True)(f)
         else:
             def f(self, tok, name=name, kind=kind):
